@@ -77,3 +77,45 @@ store_harness!(c17_index_deindex_mirror_lmdb, {
     core::mem::forget(s2);
     core::mem::forget(store);
 });
+
+//@ harness: c17_removal_parts_leave_other_event
+//@ tier: thorough
+//@ serves: C18
+//@ timeout: 3000
+//@ mem: 24
+//@ covers: any
+//@ unwindset: put_bytes=80; heed::bytes_=260; heed::Table=6; memcmp.0=70; repeat::Repeat=190; Repeat.*try_fold=190; mmap_append=200; read_hex=34; enc_tags=6
+//@ cbmc: --max-field-sensitivity-array-size 1100
+//@ encodes: EventStore::get_event_by_offset, Lmdb::deindex, Lmdb::deindex_id, Lmdb::get_offset_by_id, Lmdb::is_deleted (the three calls Store::remove_by_offset makes, composed by the harness in the same order: pocket's own wrapper is not evaluable by the symbolic executor, DESIGN.md 8.2 item 5)
+//@ bounds: two events of different authors (kind 1, no tags) with ARBITRARY created_at in 4096..=4351 each (earlier, equal, later) are in the store (seeded); the first is removed with get_event_by_offset + Lmdb::deindex + Lmdb::deindex_id in one committed transaction: afterwards its id has no index entry and no deletion marker, and the second event's id entry still leads to its own offset
+//@ outside: Store::remove_event / remove_by_offset themselves (their composition of these calls is read from lib.rs); tags; more than two events
+store_harness!(c17_removal_parts_leave_other_event, {
+    let store = verif_store();
+    let l1: u8 = kani::any();
+    let l2: u8 = kani::any();
+    let (t1, t2) = (0x1000 + l1 as u64, 0x1000 + l2 as u64);
+    let mut b1 = [0u8; 160];
+    let n1 = enc_event_img(1, t1, &ID_A, &PK_1, &SIG_0, &[], b"", b"x", &mut b1);
+    let mut b2 = [0u8; 160];
+    let n2 = enc_event_img(1, t2, &ID_B, &PK_2, &SIG_0, &[], b"", b"y", &mut b2);
+    let off1 = seed_stored(&store, as_event(&b1[..n1]));
+    let off2 = seed_stored(&store, as_event(&b2[..n2]));
+    {
+        let ev = ok!(unsafe { store.events.get_event_by_offset(off1 as usize) });
+        let mut txn = ok!(store.indexes.write_txn());
+        ok!(store.indexes.deindex(&mut txn, ev));
+        ok!(store.indexes.deindex_id(&mut txn, ev.id()));
+        ok!(txn.commit());
+    }
+    kani::cover!(t1 == t2);
+    let txn = ok!(store.indexes.read_txn());
+    assert!(ok!(store.indexes.get_offset_by_id(&txn, Id::from_bytes(ID_A))).is_none(), "the removed event still has an id entry");
+    assert!(ok!(store.indexes.get_offset_by_id(&txn, Id::from_bytes(ID_B))) == Some(off2), "removing one event disturbed another event's id entry");
+    assert!(!ok!(store.indexes.is_deleted(&txn, Id::from_bytes(ID_A))), "removal left a deletion marker");
+    core::mem::forget(txn);
+    let s = ok!(store.stats());
+    let ix = &s.index_stats;
+    assert!(ix.i_index_entries == 1 && ix.ci_index_entries == 1 && ix.ac_index_entries == 1 && ix.akc_index_entries == 1, "index entries leaked or were over-deleted");
+    core::mem::forget(s);
+    core::mem::forget(store);
+});
